@@ -155,3 +155,83 @@ package core
 //@   ensures signals: forall j :: 0 <= j && j < len(in) && tSignal(in[j]) ==> out[cnt(in, j)] == in[j]
 //@   ensures total: dyn(out[cnt(in, len(in))], "*gdbi.BaseTraveler") &&
 //@       ptr(out[cnt(in, len(in))], "*gdbi.BaseTraveler").Count == nonsig(in, len(in))
+
+//@ func contains
+//@   property C01
+//@   nopanic
+//@   pure
+//@   loop 1 invariant none: forall j :: 0 <= j && j <= rangeindex ==> a[j] != v
+//@   ensures def: result <==> (exists j :: 0 <= j && j < len(a) && a[j] == v)
+
+// has(expr): signals pass in place; a non-signal traveler is forwarded iff the
+// has-expression holds for it (hm, defined by MatchesHasExpression's contract, C08).
+//@ func (*Has).Process$1
+//@   property C01 C08
+//@   option prelude=trav,json
+//@   option load=gdbi,engine/logic,gripql,jsonpath
+//@   nopanic
+//@   requires fresh: rd(in) == 0 && wr(out) == 0 && !closed(out) && in != out && out != nil && in != nil && w != nil && w.stmt != nil
+//@   requires items: forall j :: 0 <= j && j < len(in) ==> in[j] != nil
+//@   axiom c0: cnt(in, 0) == 0
+//@   axiom cS: forall k :: 0 <= k ==> cnt(in, k + 1) == cnt(in, k) + ite(tSignal(in[k]) || hm(in[k], w.stmt), 1, 0)
+//@   loop 1 invariant pos: 0 <= rd(in) && rd(in) <= len(in) && !closed(out)
+//@   loop 1 invariant sent: wr(out) == cnt(in, rd(in))
+//@   loop 1 invariant mono: forall j :: 0 <= j && j <= rd(in) ==> cnt(in, j) <= cnt(in, rd(in))
+//@   loop 1 invariant elems: forall j :: 0 <= j && j < rd(in) && (tSignal(in[j]) || hm(in[j], w.stmt)) ==> out[cnt(in, j)] == in[j]
+//@   ensures closed: closed(out)
+//@   ensures drained: rd(in) == len(in)
+//@   ensures length: wr(out) == cnt(in, len(in))
+//@   ensures elems: forall j :: 0 <= j && j < len(in) && (tSignal(in[j]) || hm(in[j], w.stmt)) ==> out[cnt(in, j)] == in[j]
+
+// hasLabel(ls): a non-signal traveler is forwarded iff it has a current element whose
+// label is one of ls (the captured, de-duplicated list).
+//@ func (*HasLabel).Process$1
+//@   property C01 C06
+//@   option prelude=trav
+//@   option load=gdbi
+//@   nopanic
+//@   requires fresh: rd(in) == 0 && wr(out) == 0 && !closed(out) && in != out && out != nil && in != nil
+//@   requires items: forall j :: 0 <= j && j < len(in) ==> in[j] != nil
+//@   axiom c0: cnt(in, 0) == 0
+//@   axiom cS: forall k :: 0 <= k ==> cnt(in, k + 1) == cnt(in, k) + ite(tSignal(in[k]) || (tCurrent(in[k]) != 0 &&
+//@       (exists m :: 0 <= m && m < len(labels) && labels[m] == cast(tCurrent(in[k]), "*gdbi.DataElement").Label)), 1, 0)
+//@   loop 1 invariant pos: 0 <= rd(in) && rd(in) <= len(in) && !closed(out)
+//@   loop 1 invariant sent: wr(out) == cnt(in, rd(in))
+//@   loop 1 invariant mono: forall j :: 0 <= j && j <= rd(in) ==> cnt(in, j) <= cnt(in, rd(in))
+//@   loop 1 invariant elems: forall j :: 0 <= j && j < rd(in) && (tSignal(in[j]) || (tCurrent(in[j]) != 0 &&
+//@       (exists m :: 0 <= m && m < len(labels) && labels[m] == cast(tCurrent(in[j]), "*gdbi.DataElement").Label))) ==> out[cnt(in, j)] == in[j]
+//@   ensures closed: closed(out)
+//@   ensures drained: rd(in) == len(in)
+//@   ensures length: wr(out) == cnt(in, len(in))
+//@   ensures elems: forall j :: 0 <= j && j < len(in) && (tSignal(in[j]) || (tCurrent(in[j]) != 0 &&
+//@       (exists m :: 0 <= m && m < len(labels) && labels[m] == cast(tCurrent(in[j]), "*gdbi.DataElement").Label))) ==> out[cnt(in, j)] == in[j]
+
+// hasId(ids): a non-signal traveler is forwarded iff it has a current element whose id
+// is one of ids.
+//@ func dedupStringSlice
+//@   property C01 C06
+//@   nopanic
+//@   modifies SH.Str MapD.Str MapN alloc
+//@   loop 1 invariant j: 0 <= j && j <= rangeindex + 1 && rangeindex < len(s)
+//@   ensures shape: len(result) <= len(s) && len(result) >= 0 && sref(result) == sref(s) && soff(result) == soff(s)
+
+//@ func (*HasID).Process$1
+//@   property C01 C06
+//@   option prelude=trav
+//@   option load=gdbi
+//@   nopanic
+//@   requires fresh: rd(in) == 0 && wr(out) == 0 && !closed(out) && in != out && out != nil && in != nil && h != nil
+//@   requires items: forall j :: 0 <= j && j < len(in) ==> in[j] != nil
+//@   axiom c0: cnt(in, 0) == 0
+//@   loop 1 axiom cS: forall k :: 0 <= k ==> cnt(in, k + 1) == cnt(in, k) + ite(tSignal(in[k]) || (tCurrent(in[k]) != 0 &&
+//@       (exists m :: 0 <= m && m < len(ids) && ids[m] == cast(tCurrent(in[k]), "*gdbi.DataElement").ID)), 1, 0)
+//@   loop 1 invariant pos: 0 <= rd(in) && rd(in) <= len(in) && !closed(out)
+//@   loop 1 invariant sent: wr(out) == cnt(in, rd(in))
+//@   loop 1 invariant mono: forall j :: 0 <= j && j <= rd(in) ==> cnt(in, j) <= cnt(in, rd(in))
+//@   loop 1 invariant elems: forall j :: 0 <= j && j < rd(in) && (tSignal(in[j]) || (tCurrent(in[j]) != 0 &&
+//@       (exists m :: 0 <= m && m < len(ids) && ids[m] == cast(tCurrent(in[j]), "*gdbi.DataElement").ID))) ==> out[cnt(in, j)] == in[j]
+//@   ensures closed: closed(out)
+//@   ensures drained: rd(in) == len(in)
+//@   ensures length: wr(out) == cnt(in, len(in))
+//@   ensures elems: forall j :: 0 <= j && j < len(in) && (tSignal(in[j]) || (tCurrent(in[j]) != 0 &&
+//@       (exists m :: 0 <= m && m < len(ids) && ids[m] == cast(tCurrent(in[j]), "*gdbi.DataElement").ID))) ==> out[cnt(in, j)] == in[j]
